@@ -394,10 +394,30 @@ def gen_dep_plan(rng):
             owner[(s, b)] = mod
         k = rng.random()
         cond = rand_expr(1, 1) if k < 0.45 else None
+        if cond is not None and rng.random() < 0.35:
+            # Switch/Case on a string pattern with don't-care positions (Default when there is an else branch)
+            n = rng.randrange(1, 5)
+            pat = "".join(rng.choice("01--") for _ in range(n))
+            cond = ["case", rand_expr(n, rng.randrange(0, 2)), pat]
         a = {"tgt": [s, lo, hi], "expr": rand_expr(hi - lo, rng.randrange(0, 3)), "cond": cond, "mod": mod}
         if k < 0.12:
             a["else_expr"] = rand_expr(hi - lo, rng.randrange(0, 2))
         assigns.append(a)
+    if rng.random() < 0.25:
+        # a signal switched on itself: one of its bits is assigned under a Case whose pattern tests that very bit
+        # (a loop through the condition) or leaves it as a don't-care (a loop only under the conservative reading)
+        cands = [s for s in range(ninputs, nsig) if widths[s] >= 2]
+        if cands:
+            s = rng.choice(cands)
+            w = widths[s]
+            pat = "".join(rng.choice("01---") for _ in range(w))
+            j = rng.randrange(w)
+            mod = owner.get((s, j), rng.randrange(nmod))
+            owner[(s, j)] = mod
+            a = {"tgt": [s, j, j + 1], "expr": rand_expr(1, 0), "cond": ["case", ["bits", s, 0, w], pat], "mod": mod}
+            if rng.random() < 0.3:
+                a["else_expr"] = rand_expr(1, 0)
+            assigns.append(a)
     if rng.random() < 0.5:
         # "default, then override": unconditional assignments placed before everything generated so far
         defaults = []
@@ -479,6 +499,19 @@ def gen_ladder_plan(rng):
     return {"tree": tree, "widths": widths, "assigns": assigns, "ladder": True}
 
 
+def cond_deps(cond, conservative):
+    """Bits a condition depends on.  A Case pattern is written most significant bit first; under the true reading
+    only the positions it cares about (0/1) matter, under the conservative one every bit of the tested value."""
+    if cond is None:
+        return frozenset()
+    if cond[0] == "case":
+        d = deps(cond[1], conservative)
+        pat = cond[2]
+        keep = [d[i] for i in range(len(d)) if conservative or pat[len(pat) - 1 - i] != "-"]
+        return frozenset().union(*keep) if keep else frozenset()
+    return frozenset().union(*deps(cond, conservative))
+
+
 def graph(plan, conservative):
     """bit -> set of bits it depends on.  Conservative: the union over every assignment that mentions the bit.
     True: assignments are applied in program order; an unconditional assignment (or an If/Else pair) that covers
@@ -487,7 +520,7 @@ def graph(plan, conservative):
     for a in plan["assigns"]:
         s, lo, hi = a["tgt"]
         d = deps(a["expr"], conservative)
-        c = frozenset().union(*deps(a["cond"], conservative)) if a["cond"] is not None else frozenset()
+        c = cond_deps(a["cond"], conservative)
         e = deps(a["else_expr"], conservative) if a.get("else_expr") is not None else None
         for k, b in enumerate(range(lo, hi)):
             new = d[k] | c | (e[k] if e is not None else frozenset())
@@ -526,6 +559,14 @@ def build_dep_plan(plan):
         if a["cond"] is None:
             m.d.comb += sigs[s][lo:hi].eq(build_expr(a["expr"], sigs))
         else:
+            if a["cond"][0] == "case":
+                with m.Switch(build_expr(a["cond"][1], sigs)):
+                    with m.Case(a["cond"][2]):
+                        m.d.comb += sigs[s][lo:hi].eq(build_expr(a["expr"], sigs))
+                    if a.get("else_expr") is not None:
+                        with m.Default():
+                            m.d.comb += sigs[s][lo:hi].eq(build_expr(a["else_expr"], sigs))
+                continue
             with m.If(build_expr(a["cond"], sigs)):
                 m.d.comb += sigs[s][lo:hi].eq(build_expr(a["expr"], sigs))
             if a.get("else_expr") is not None:
@@ -571,7 +612,10 @@ def run_dep_plan(plan, out, label="dependency-plan"):
     ops = set()
     for a in plan["assigns"]:
         ops_in(a["expr"], ops)
-        if a["cond"] is not None:
+        if a["cond"] is not None and a["cond"][0] == "case":
+            ops.add("switch-case-with-dont-care" if "-" in a["cond"][2] else "switch-case")
+            ops_in(a["cond"][1], ops)
+        elif a["cond"] is not None:
             ops.add("if-condition")
             ops_in(a["cond"], ops)
         if a.get("else_expr") is not None:
